@@ -30,7 +30,10 @@ def const_num(path, src, node):
     if isinstance(node, ast.UnaryOp) and isinstance(node.op, ast.USub):
         return -const_num(path, src, node.operand)
     if isinstance(node, ast.Constant) and isinstance(node.value, (int, float)) and not isinstance(node.value, bool):
-        lines = _LINES.setdefault(id(src), src.split('\n'))
+        lines = _LINES.get(src)
+        if lines is None:
+            _LINES.clear()
+            lines = _LINES.setdefault(src, src.split('\n'))
         if node.lineno == node.end_lineno:
             seg = lines[node.lineno - 1].encode('utf8')[node.col_offset:node.end_col_offset].decode('utf8')
         else:
